@@ -229,12 +229,12 @@ var specs = []CheckSpec{
 	{
 		ID: "C04", Pkg: "testscript", UsesVFS: true,
 		Harnesses: []HarnessSpec{
-			{Fn: "VerifC04Isolation", Quick: map[string]int{"S": 2}, Thorough: map[string]int{"S": 2}, Witness: []string{"removed", "retained", "two-scripts", "fail", "skip", "pass-or-stop", "read-only-dir", "deferred-function-ends-test"}},
+			{Fn: "VerifC04Isolation", Quick: map[string]int{"S": 2}, Thorough: map[string]int{"S": 2}, Witness: []string{"removed", "retained", "two-scripts", "fail", "skip", "pass-or-stop", "read-only-dir", "deferred-function-ends-test", "directory-with-same-stem-scripts"}},
 			{Fn: "VerifC04SetupEnds", Witness: []string{"setup-succeeds", "setup-fails", "setup-skips"}},
 			{Fn: "VerifC04Background", Quick: map[string]int{"B": 3}, Thorough: map[string]int{"B": 4}, Witness: []string{"ends-with-processes-running", "wait", "wait-for-named-command", "fails-with-processes-running", "skip-with-processes-running"}},
 		},
 		Bounds: map[string]string{
-			"quick":    "one or two scripts run one after the other through the real RunT; exit kind pass / fail / skip / stop; a read-only directory with a file left in the work dir or not; host environment with GOCOVERDIR and GORACE present or absent plus unrelated variables; TestWork and WorkdirRoot on or off (all choices symbolic); a Setup that registers deferred functions and succeeds / returns an error / skips / FailNow; 1-3 background commands (each: exits by itself with success or failure, or runs until signalled; negated or not) the first one named, followed by nothing / wait / a failing line / skip / stop / wait and a failing line / wait for the named command, verbose or not",
+			"quick":    "one or two scripts (given as files, or two found in a directory as s.txt and s.txtar) run one after the other through the real RunT; exit kind pass / fail / skip / stop; a read-only directory with a file left in the work dir or not; host environment with GOCOVERDIR and GORACE present or absent plus unrelated variables; TestWork and WorkdirRoot on or off (all choices symbolic); a Setup that registers deferred functions and succeeds / returns an error / skips / FailNow; 1-3 background commands (each: exits by itself with success or failure, or runs until signalled; negated or not) the first one named, followed by nothing / wait / a failing line / skip / stop / wait and a failing line / wait for the named command, verbose or not",
 			"thorough": "same, with up to 4 background commands",
 		},
 		Stubs: []string{"as C01; the vfs model enforces directory write permission on unlink so that the chmod walk of removeAll matters", "VerifC04Background: exec.Command, (*exec.Cmd).Start, (*os.Process).Signal/Kill, (*os.ProcessState).Success/String and testscript.waitOrStop over a process table (waitOrStop itself is C17)"},
@@ -244,10 +244,10 @@ var specs = []CheckSpec{
 	{
 		ID: "C17", Pkg: "testscript", UsesVFS: true,
 		Harnesses: []HarnessSpec{
-			{Fn: "VerifC17Deadline", Witness: []string{"deadline-set", "no-deadline", "grace-period-scaled", "grace-period-minimum", "timed-out", "plain-failure", "unaffected"}},
+			{Fn: "VerifC17Deadline", Witness: []string{"deadline-set", "no-deadline", "grace-period-scaled", "grace-period-minimum", "timed-out", "plain-failure", "unaffected", "second-script-starts-later"}},
 		},
 		Bounds: map[string]string{
-			"quick":    "one script with one foreground exec line (negated or not) run through the real RunT / run / cmdExec / exec; Params.Deadline set or not; the distance to the deadline any int64 nanosecond count in [-2^40, 2^55] (about -18 minutes to +1.1 years); the command's result (nil / error) and whether the context has expired are symbolic",
+			"quick":    "one script, or two run one after the other (the first command taking an arbitrary time), each with one foreground exec line (negated or not) run through the real RunT / run / cmdExec / exec; Params.Deadline set or not; the distance to the deadline any int64 nanosecond count in [-2^40, 2^55] (about -18 minutes to +1.1 years); the command's result (nil / error) and whether the context has expired are symbolic",
 			"thorough": "same (the space is covered symbolically)",
 		},
 		Stubs:       []string{"time.Until returns the symbolic distance", "context.WithTimeout returns a model context recording its timeout, whose Err is DeadlineExceeded iff the harness's 'expired' choice", "os/exec.Command builds the Cmd value, (*exec.Cmd).Start succeeds", "testscript.waitOrStop is replaced by a recorder returning the chosen result (the function itself is decided by the tsys part of this check)", "file system as C01"},
